@@ -67,6 +67,17 @@ fn check(t: &mut Tape, ctx: &mut Ctx) -> CheckResult {
     let lgot = lgot.strictify().map_err(|e| ctx.fail("map-arrow-wf", format!("lax F(f) has label conflicts: {e}")))?;
     require_iso(ctx, "lax-map-arrow-is-substitution", &lgot, &want, "F(f) (lax trait via dyn_functor) vs substitution")?;
 
+    // the lax trait on an argument that still carries pending unifications (they are part of the diagram)
+    let pend = gen::pending_pairs(t, f, 3, true);
+    if !pend.is_empty() {
+        let lx = crate::model::Lax { d: f.clone(), q: pend.clone() };
+        ctx.set_dump(format!("{}\npending(f) = {:?}", ctx.dump, pend));
+        let img = lf.map_arrow(&to_lax(&lx));
+        let img = wf(ctx, "map-arrow-wf", from_lax(&img), "lax F(f with pending pairs)")?.strictify().map_err(|e| ctx.fail("map-arrow-wf", format!("lax F(f) has label conflicts: {e}")))?;
+        let want_p = substitute(&lx.strictify().expect("consistent"), &table);
+        require_iso(ctx, "lax-map-arrow-respects-pending", &img, &want_p, "F(f) for a lax f with pending unifications vs substitution into the quotiented f")?;
+        ctx.class("lax-argument-with-pending-pairs");
+    }
     // functoriality
     let fg = f.compose(g).expect("composable");
     let l = strict_map(ctx, &table, &fg, "F(f;g)")?;
